@@ -64,7 +64,7 @@ class Gen:
         """blank lines between statements: usually none, sometimes big (line deltas >= 128, >= 256)"""
         k = self.i(0, 19)
         if k == 0:
-            n = self.pick([127, 128, 129, 200, 255, 256, 257, 300, 400])
+            n = self.pick([127, 128, 129, 200, 255, 256, 257, 300, 400, 1100, 2100, 4200])
             self.features.add("linegap>=127")
             self.lines.extend([""] * n)
         elif k < 4:
